@@ -307,3 +307,21 @@ func VH_C13_v2_env_object() {
 		vrt.Assert(t == b, "all temporal metrics Not Defined: temporal equals base")
 	}
 }
+
+// C13 (v2): an environmental group whose five metrics are all Not Defined is score-neutral: the
+// environmental score equals the temporal score (temporal group present or absent). Exported API only.
+func VH_C13_v2_env_neutral() {
+	vec, _, _, _, _, _, _ := pickBase()
+	tp := vrt.Pick("tgroup", "absent", "present")
+	tsuf, _, _, _ := pickTemporal()
+	if tp == "present" {
+		vec = vec + tsuf
+	}
+	em, err := NewEnvironmental().Decode(vec + "/CDP:ND/TD:ND/CR:ND/IR:ND/AR:ND")
+	vrt.Assert(err == nil, "accepted")
+	if err != nil {
+		return
+	}
+	vrt.Assert(em.Score() == em.TemporalMetrics().Score(), "all environmental metrics Not Defined: environmental score equals temporal score")
+	vrt.Assert(em.Severity() == em.TemporalMetrics().Severity(), "all environmental metrics Not Defined: same severity")
+}
